@@ -8,26 +8,26 @@ import os
 ROOT = os.path.dirname(os.path.dirname(os.path.abspath(__file__)))
 
 TECH = {
-    "C01": ("runtime monitor: independent RDKit element/charge balance oracle on every solved row returned by the real Balancer over corpus, redox-template, ionic/heavy-element, deletion and marker workloads", "4 C01"),
+    "C01": ("runtime monitor: independent RDKit element/charge balance oracle on every solved row returned by the real Balancer over corpus, redox-template, ionic/heavy-element, dative-bond, deletion, marker and large-batch workloads, with a fault injected into the second rule-based run; element-key audit of the real decomposer drives exchange reactions for colliding symbols", "4 C01"),
     "C02": ("runtime monitor: canonical-fragment multiset containment oracle (input side within output side; input_reaction == de-mapped input) on rows of the real pipeline, incl. marker-collision inputs and result rows that are edited and fed back", "4 C02 / 9"),
-    "C03": ("runtime monitor on returned rows + stage snapshots: declined rows equal their input and carry an issue, solved rows name a method; edit signatures show which in-place editors ran before the revert", "4 C03"),
-    "C04": ("runtime monitor: oracle-balanced inputs (shipped curated reactions, reversals, multiples, unions, ionic/heavy constructions) must come back input-balanced and unchanged; converse on unbalanced inputs", "4 C04"),
-    "C05": ("runtime monitor at the client boundary: row count/order/identity oracle over enumerated sequences of valid and malformed rows x batch sizes x input sources, and over the CLI's output files", "4 C05"),
-    "C06": ("run-vs-run metamorphic monitor: same reactions alone / co-batched / permuted / partitioned / different n_jobs must give identical rows; stats additivity; processing-history blocks (warm process in dataset order vs fresh interpreter in reverse order); wall-clock taint excluded", "4 C06 / 9"),
+    "C03": ("runtime monitor on returned rows + stage snapshots: declined rows equal their input and carry an issue, solved rows name a method and carry none, carbon-excess products are declined; zero-confidence family at the default threshold; transient faults injected into the late stages (whatever rows come back are judged)", "4 C03"),
+    "C04": ("runtime monitor: oracle-balanced inputs (shipped curated reactions, reversals, multiples, families of one reaction with its multiples in one batch, unions, ionic/heavy/dative constructions, result rows fed back) must come back input-balanced and unchanged; converse on unbalanced inputs", "4 C04"),
+    "C05": ("runtime monitor at the client boundary: row count/order/identity oracle over enumerated sequences of valid (incl. titled / CXSMILES / unusual spellings) and malformed rows (incl. non-string values) x batch sizes x input sources, and over the CLI's output files", "4 C05"),
+    "C06": ("run-vs-run metamorphic monitor: same reactions alone / co-batched / permuted / partitioned / different n_jobs must give identical rows; stats additivity and partition independence; processing-history blocks in dataset order and in reagent clusters (warm process vs fresh interpreter in reverse order vs second pass); wall-clock taint excluded", "4 C06 / 9"),
     "C07": ("runtime contracts on the real decomposer/comparator/carbon check (also the real decompose->compare chain on reactions and the count cache across element types) against the independent composition oracle; periodic-table sweep, dot-spanning ring closures, exhaustive small composition-vector pairs", "4 C07 / 9"),
-    "C08": ("runtime postconditions on the real rule matcher / imputer / constraint: returned completions are re-summed with oracle compositions; exhaustive small imbalance vectors", "4 C08"),
-    "C09": ("runtime postconditions on the real merge(): atom conservation, no open boundary, cut-merge round trip and reference expansion over (molecule, acyclic single bond) pairs", "4 C09"),
-    "C10": ("runtime monitor at exit of the real MCSSearch.find and get_largest_condition: attribution, containment (RDKit substructure) and maximality against a reference selection; exhaustive small result tables", "4 C10"),
-    "C11": ("fault injection at the real failure sites of the MCS stage (delay beyond budget, raise, cancelled FindMCS, line-level delays in the zombie thread) with run-vs-fault-free comparison", "4 C11"),
-    "C12": ("history and crash-point enumeration over a shared cache directory: cached run vs uncached run of the real Balancer; every truncated on-disk state and real kills at the k-th write", "4 C12"),
-    "C13": ("run-vs-run monitor across thresholds (incl. observed confidences and their float neighbours) on rows of the real Balancer", "4 C13"),
-    "C14": ("metamorphic monitor: equivalent spellings / molecule orders of one reaction through the real Balancer must give the same verdict and added-fragment multisets (bases incl. ambiguous-completion imbalances, H2 on the reactant side, spectator copies; also re-spellings of reactions whose first spelling was declined)", "4 C14 / 9"),
-    "C15": ("runtime postcondition on the real remove_atom_mapping against the RDKit-API de-mapping oracle over a periodic-table bracket-atom generator and mapped corpus", "4 C15"),
-    "C16": ("runtime monitor: renumbering invariance of is_functional_group and agreement of pattern_match with an independent backtracking sub-graph matcher", "4 C16"),
-    "C17": ("runtime monitor: idempotence, permutation/spelling invariance of normalize_smiles and symmetry/range of wc_similarity, incl. isomers with colliding sort keys", "4 C17"),
-    "C18": ("runtime monitor: stats returned by the real run re-derived from its rows and from stage snapshots; CLI .stats file vs CSV", "4 C18"),
-    "C19": ("icontract class invariant on the real RuleImputeManager + sequential reference model over enumerated and random edit histories", "4 C19"),
-    "C20": ("runtime postcondition on the real MoleculeStandardizer: parsable, composition-preserving, idempotent; generated enol/hemiketal families in several atom orders", "4 C20"),
+    "C08": ("runtime postconditions on the real rule matcher / imputer / constraint (judged on fragment multisets): completions re-summed with oracle compositions, only database compounds (both shipped databases side by side in one process), no dihalogens on the product side over repeated constraint passes; exhaustive small imbalance vectors", "4 C08"),
+    "C09": ("runtime postconditions on the real merge(): atom conservation, no open boundary, cut-merge round trip unless a restriction rule is reported, reference expansion over (molecule, acyclic single bond) pairs incl. isotope-labelled and sulfur-halide molecules, both fragment orders and random rootings", "4 C09"),
+    "C10": ("runtime monitor at exit of the real MCSSearch.find (also with a process pool) and get_largest_condition: attribution, containment (RDKit substructure) and maximality against the captured condition results; forced-canceled inner searches; exhaustive small result tables", "4 C10"),
+    "C11": ("fault injection at the real failure sites of the MCS stage (delay beyond budget, raise, cancelled FindMCS, inner-step failures, line-level delays in the zombie thread, long hangs followed by a clean re-run, real-budget leading timeouts, non-default id column) with run-vs-fault-free comparison and induced-timeout detection", "4 C11"),
+    "C12": ("history and crash-point enumeration over a shared cache directory: cached run vs uncached run of the real Balancer; every truncated / corrupted on-disk state (recursive, cuts at multi-byte characters), real kills at the k-th write and at the k-th statement inside the cache manager's own code (sys.monitoring)", "4 C12"),
+    "C13": ("run-vs-run monitor across thresholds (incl. observed confidences, their float neighbours and +-0.0004) on rows of the real Balancer, with and without the result cache, and back to threshold 0 on the same object", "4 C13"),
+    "C14": ("metamorphic monitor: equivalent spellings / molecule orders of one reaction through the real Balancer must give the same verdict and added-fragment multisets (bases incl. ambiguous-completion imbalances, H2 on the reactant side, spectator copies, families with other multiplicities in the same batch; also re-spellings of reactions whose first spelling was declined)", "4 C14 / 9"),
+    "C15": ("runtime postcondition on the real remove_atom_mapping against the RDKit-API de-mapping oracle over a periodic-table bracket-atom generator and mapped corpus; map-free outputs of real pipeline runs incl. a default run after a keep-maps run on a shared cache directory", "4 C15"),
+    "C16": ("runtime monitor: renumbering invariance of is_functional_group (RenumberAtoms and re-parsed random SMILES) and agreement of pattern_match with an independent backtracking sub-graph matcher, incl. molecules whose hydrogens are graph atoms", "4 C16"),
+    "C17": ("runtime monitor: idempotence, permutation/spelling invariance of normalize_smiles and symmetry/range of wc_similarity, incl. isomers with colliding sort keys; the real `synrbl benchmark` command on files of oracle-checked variants (every row must be counted correct)", "4 C17"),
+    "C18": ("runtime monitor: stats returned by the real run re-derived from its rows and from stage snapshots (runs with repeated reactions, malformed rows, thresholds at observed confidences, shared cache directories); CLI .stats file vs CSV", "4 C18"),
+    "C19": ("icontract class invariant on the real RuleImputeManager + sequential reference model over enumerated and random edit histories and periodic-table histories (every element in seven forms)", "4 C19"),
+    "C20": ("runtime postcondition on the real MoleculeStandardizer: parsable, composition-preserving, idempotent; generated enol / hemiketal / cascade families in several atom orders, and on every call made inside real pipeline runs", "4 C20"),
 }
 
 LEVEL = {"C11": "fault_enumeration", "C12": "fault_enumeration"}
